@@ -70,7 +70,7 @@ def dedupe(scns, key=lambda d: json.dumps(d, sort_keys=True)):
 # ---------------------------------------------------------------------------------------------
 # iterator scenarios: descriptor {n,f,b,op,arg,pan} -> script
 # ---------------------------------------------------------------------------------------------
-SEARCH_OPS = ("iter_position", "iter_rposition", "iter_any", "iter_all", "iter_find", "iter_rfind")
+SEARCH_OPS = ("iter_position", "iter_rposition", "iter_any", "iter_all", "iter_find", "iter_rfind", "iter_find_map")
 
 
 def iter_search_scripts(lens, prop, faults=False):
@@ -587,6 +587,20 @@ def c07(tier, seed):
                 st["hint"] = h
             huge.append({"case": op, "prop": "C07", "ety": "tk", "steps": [st], "d": {"op": op, "n": "2^50", "script": sc, "hint": h}})
     c.conform(binary, with_etys(huge, ["tk", "plain"]), "collect-unallocatable")
+    # a source that owns a value with a destructor besides the items it yields (like the unread tail behind `.take(n)`):
+    # it must have been dropped when the call is over, whatever the outcome
+    guarded = []
+    for n in ([0, 1, 2] if tier == "quick" else [0, 1, 2, 3, 5]):
+        for sc in ([1] * n, [1] * (n + 1), [1] * max(n - 1, 0), [1] * n + [0, 1], [1] * min(n, 1) + [2]):
+            for h in (None, [0, -1], [n + 1, -1]):
+                for op in ("try_from_iter", "from_iter", "try_boxed_from_iter", "boxed_from_iter"):
+                    st = {"op": op, "n": n, "okind": "box" if "boxed" in op else "arr", "script": sc, "elems": [1]}
+                    if h is not None:
+                        st["hint"] = h
+                    if sc == [1] * n:
+                        st["arg"] = 1
+                    guarded.append({"case": op, "prop": "C07", "ety": "tk", "noanon": True, "steps": [{"op": "mk_elem"}, st], "d": {"op": op, "n": n, "script": sc, "hint": h, "source_owns": "a tracked value"}})
+    c.conform(binary, with_etys(guarded, ["tk", "plain"]), "collect-owning-source")
     c.conform(binary, with_etys(collect_scripts_large([17, 33, 97] if tier == "quick" else [16, 17, 32, 33, 64, 65, 97, 1024], "C07"), ["tk", "plain"] if tier == "quick" else ["tk", "zst", "plain"]), "collect-large")
     if tier != "quick":
         c.neg("MC_Collect", "NEG_Collect_noprobe")
@@ -742,7 +756,7 @@ def random_histories(rng, count, max_len, steps_n, max_vals=3):
                     del vals[h]
                     out1({"into_iter": "iter", "box_new": "box", "vec_from_arr": "vec", "bslice_from_arr": "bslice", "into_array": "native", "into_native": "native", "into_tuple": "tuple"}[o], n)
             elif kind == "iter":
-                o = rng.choice(["next", "next_back", "next", "next_back", "nth", "nth_back", "nth", "nth_back", "len", "iter_clone", "count", "last", "iter_fold", "iter_rfold", "release", "debug", "collect_iter"])
+                o = rng.choice(["next", "next_back", "next", "next_back", "nth", "nth_back", "nth", "nth_back", "len", "iter_clone", "count", "last", "iter_fold", "iter_rfold", "release", "debug", "collect_iter", "collect_iter_take", "iter_find", "iter_position", "iter_for_each"])
                 if o in ("next", "next_back"):
                     steps.append({"op": o, "recv": [h]})
                     if n:
@@ -764,6 +778,23 @@ def random_histories(rng, count, max_len, steps_n, max_vals=3):
                     out1("iter", n)
                 elif o == "release":
                     steps.append({"op": "release", "h": h})
+                    del vals[h]
+                elif o == "collect_iter_take":
+                    tgt = rng.choice([n, max(n - 1, 0), max(n - 2, 0), n + 1])
+                    if tgt > max_len:
+                        tgt = n
+                    steps.append({"op": o, "recv": [h], "arg": tgt})
+                    del vals[h]
+                    if tgt <= n:
+                        out1("arr", tgt)
+                elif o in ("iter_find", "iter_position"):
+                    stop = rng.choice([-1] + list(range(n))) if n else -1
+                    steps.append({"op": o, "recv": [h], "arg": stop})
+                    vals[h] = ("iter", 0 if stop < 0 else n - stop - 1, 0)
+                    if o == "iter_find" and stop >= 0:
+                        loose += 1
+                elif o == "iter_for_each":
+                    steps.append({"op": o, "recv": [h], "form": ["own"]})
                     del vals[h]
                 elif o == "collect_iter":
                     tgt = rng.choice([n, n, n + 1, max(n - 1, 0)])
@@ -973,8 +1004,8 @@ def c10(tier, seed):
             if d["api"] in CHUNK_APIS and e in ("u8", "u32"):
                 scns.append(view_scn("C10", d["api"], e, d["n"], d["l"], 1 if e == "u8" else 3, d["m"]))
     rng = random.Random(seed)
-    for n in ([16, 97] if tier == "quick" else [5, 6, 9, 12, 16, 33, 97, 1024]):
-        ls = sorted(set([0, 1, n - 1, n, n + 1, 2 * n - 1, 2 * n, 3 * n + 2, 4 * n + 3] + [rng.randint(0, 4 * n + 3) for _ in range(4)]))
+    for n in ([5, 6, 10, 12, 16, 97] if tier == "quick" else [5, 6, 9, 10, 11, 12, 16, 33, 97, 1024]):
+        ls = sorted(set([0, 1, n - 1, n, n + 1, 2 * n - 1, 2 * n, 2 * n + 1, 3 * n + 2, 4 * n + 3] + [rng.randint(0, 4 * n + 3) for _ in range(4)]))
         for api in CHUNK_APIS:
             for l in ls:
                 for e in etys[:3]:
@@ -1141,7 +1172,7 @@ def alloc_scenarios(lens, etys, prop, panics=True):
             for l in sorted({0, max(n - 1, 0), n, n + 1}):
                 add([_mk("bslice", l), {"op": "try_from_boxed_slice", "recv": [1], "arg": n}], {"op": "try_from_boxed_slice", "n": n, "l": l}, ety)
                 add([_mk("bslice", l), {"op": "arr_try_from_bslice", "recv": [1], "arg": n}], {"op": "arr_try_from_bslice", "n": n, "l": l}, ety)
-                for cap in (0, 2):
+                for cap in (0, 1, 2):
                     add([{"op": "mk", "n": l, "kind": "vec", "cap": cap}, {"op": "try_from_vec", "recv": [1], "arg": n}], {"op": "try_from_vec", "n": n, "l": l, "spare": cap}, ety)
                     add([{"op": "mk", "n": l, "kind": "vec", "cap": cap}, {"op": "arr_try_from_vec", "recv": [1], "arg": n}], {"op": "arr_try_from_vec", "n": n, "l": l, "spare": cap}, ety)
             # functional operations on boxes
